@@ -23,7 +23,7 @@ func Express(wl Workload, k string, r int) []*resource.Info {
 	for _, cp := range wl.Ports {
 		cps = append(cps, corev1.ContainerPort{Name: cp.Name, ContainerPort: int32(cp.Num), Protocol: corev1.Protocol(cp.Proto)})
 	}
-	tmpl := corev1.PodTemplateSpec{ObjectMeta: metav1.ObjectMeta{Labels: wl.Labels}, Spec: corev1.PodSpec{Containers: Containers(cps)}}
+	tmpl := corev1.PodTemplateSpec{ObjectMeta: metav1.ObjectMeta{Labels: wl.Labels}, Spec: corev1.PodSpec{Containers: Containers(cps), InitContainers: InitContainers()}}
 	var rp *int32
 	if r >= 0 {
 		x := int32(r)
